@@ -16,10 +16,18 @@ git -C /repo worktree add -q --detach "$wt" HEAD || exit 2
 res_suite=fail; res_demo_with=unknown; res_demo_without=unknown
 ( cd "$wt" && git apply "$dst/patch.diff" ) || { echo "patch does not apply"; git -C /repo worktree remove --force "$wt"; exit 2; }
 ( cd "$wt" && go build ./... && go test -vet=off -count=1 ./... >/tmp/seed_suite_$id.log 2>&1 && cd cmd/arcaflow-codegen && go build ./... && go test -vet=off -count=1 ./... >>/tmp/seed_suite_$id.log 2>&1 ) && res_suite=pass
-cp "$dst/demo_test.go" "$wt/$pkgdir/zz_seed_demo_test.go"
-( cd "$wt/$pkgdir" && go test -vet=off -count=1 -run '^TestSeedDemo$' . >/tmp/seed_demo_with_$id.log 2>&1 ) && res_demo_with=pass || res_demo_with=fail
+# the demo goes next to the package its package clause names (it may differ from the patched package)
+demopkg=$(grep -m1 '^package ' "$dst/demo_test.go" | awk '{print $2}' | sed 's/_test$//')
+case "$demopkg" in
+  atp) demodir=atp;;
+  schema) demodir=schema;;
+  main) demodir=cmd/arcaflow-codegen;;
+  *) demodir=$pkgdir;;
+esac
+cp "$dst/demo_test.go" "$wt/$demodir/zz_seed_demo_test.go"
+( cd "$wt/$demodir" && go test -vet=off -count=1 -run '^TestSeedDemo$' . >/tmp/seed_demo_with_$id.log 2>&1 ) && res_demo_with=pass || res_demo_with=fail
 ( cd "$wt" && git checkout -q -- . )
-( cd "$wt/$pkgdir" && go test -vet=off -count=1 -run '^TestSeedDemo$' . >/tmp/seed_demo_without_$id.log 2>&1 ) && res_demo_without=pass || res_demo_without=fail
+( cd "$wt/$demodir" && go test -vet=off -count=1 -run '^TestSeedDemo$' . >/tmp/seed_demo_without_$id.log 2>&1 ) && res_demo_without=pass || res_demo_without=fail
 git -C /repo worktree remove --force "$wt"
 echo "seed $id: suite_with_patch=$res_suite demo_with_patch=$res_demo_with demo_without_patch=$res_demo_without"
 # run the check against a scratch worktree with the patch applied (VERIF_REPO), so that /repo is not disturbed;
